@@ -354,6 +354,42 @@ def body_paths(ctx, case):
         ctx.event("rotor_reset_needed")
 
 
+def strat_labels():
+    from hypothesis import strategies as st
+    hyp = st.lists(st.integers(0, 4), min_size=1, max_size=8)
+    return st.lists(st.tuples(hyp, st.sampled_from([1.0, 0.5, 0.25]) | st.floats(0.05, 2.0, allow_nan=False)), min_size=1, max_size=3)
+
+
+def body_labels(ctx, case):
+    """hypotheses given as sequences of label indices (best_cn_path returns a list when the symbols are not characters);
+    0 is an ordinary label."""
+    from pero_ocr.decoding import confusion_networks as CN
+    cn = []
+    seen = []
+    desc = lambda: "hypotheses=%r network=%r" % (case, cn)
+    for k, (h, w) in enumerate(case):
+        cn = ctx.must("add_raises", CN.add_hypothese, cn, tuple(h) if k % 2 else list(h), w)
+        seen.append(h)
+        ctx.check(readable(cn, h), "new_hypothesis_not_readable", desc)
+        for e in seen:
+            ctx.check(readable(cn, e), "earlier_hypothesis_lost", lambda: "lost %r; " % (e,) + desc())
+        if k == 0:
+            single = ctx.must("best_path_raises", CN.best_cn_path, ctx.must("normalize_raises", CN.normalize_cn, copy.deepcopy(cn)))
+            ctx.check(list(single) == list(h), "single_hypothesis_does_not_read_back", lambda: "read %r; " % (single,) + desc())
+    norm = ctx.must("normalize_raises", CN.normalize_cn, copy.deepcopy(cn))
+    for p in norm:
+        ctx.check(abs(sum(p.values()) - 1.0) < 1e-11, "position_not_normalised", desc)
+    best = list(ctx.must("best_path_raises", CN.best_cn_path, norm))
+    want = [max(p, key=lambda c: p[c]) for p in norm if len({round(v, 12) for v in p.values()}) == len(p)]
+    if len(want) == len(norm):          # no ties inside a position
+        want = [c for c in want if c is not None]
+        ctx.check(best == want, "best_path_not_heaviest_arcs", lambda: "read %r heaviest arcs %r; " % (best, want) + desc())
+    if any(0 in h for h, _ in case):
+        ctx.event("label_zero_in_hypothesis")
+    if len(case) >= 2:
+        ctx.nontrivial(("labels", repr(case)))
+
+
 def strat_long():
     from hypothesis import strategies as st
     return st.tuples(st.integers(200, 1500), st.integers(0, 2 ** 31 - 1), st.integers(0, 3))
@@ -406,4 +442,5 @@ UNITS = [
     Unit("bag", "given", body=body_bag, strategy=strat_bag, quick=800, thorough=20000),
     Unit("long_networks", "given", body=body_long, strategy=strat_long, quick=60, thorough=600),
     Unit("paths", "given", body=body_paths, strategy=strat_paths, quick=800, thorough=20000),
+    Unit("label_indices", "given", body=body_labels, strategy=strat_labels, quick=600, thorough=10000),
 ]
